@@ -1,5 +1,6 @@
 mod common;
 mod p_batched;
+mod p_dict;
 mod p_bpetrain;
 mod p_edit;
 mod p_editword;
@@ -26,6 +27,7 @@ fn component(name: &str) -> (ExecFn, GenFn) {
     match name {
         "edit" => (p_edit::exec, p_edit::gen),
         "pipe" => (p_pipe::exec, p_pipe::gen),
+        "dict" => (p_dict::exec, p_dict::gen),
         "match" => (p_words::exec_match, p_words::gen_match),
         "metrics" => (p_words::exec_metrics, p_words::gen_metrics),
         "editword" => (p_editword::exec, p_editword::gen),
